@@ -211,9 +211,12 @@ theorem special_inner_irrel (i1 i2 : Inner) (mode : Mode) (c : Nat) (name : Stri
   simp only []
   split <;> first | rfl | (exfalso; exact h rfl) | exact scriptCmd_inner_irrel ..
 
-theorem runInner_eq_runCommand' (mode : Mode) (c : Nat) (sig : Sig) (raw : List Bytes) (h : sig.name ≠ "exec") :
+theorem runInner_eq_runCommand' (mode : Mode) (c : Nat) (sig : Sig) (raw : List Bytes) (h : sig.name ≠ "exec")
+    (hs : scriptNames.contains sig.name = false) :
     runInner mode c sig raw = runCommand mode c sig raw false := by
-  unfold runInner runCommand runWith
+  unfold runInner runCommand
+  simp only [hs, Bool.false_eq_true, ↓reduceIte]
+  unfold runWith
   simp only [special_inner_irrel _ (runInner mode c) mode c sig.name _ _ h]
 
 theorem cleanupClosed_run_nil {s : Sys} (h : s.srv.closedSockets = []) : cleanupClosed s = ((), s) := by
